@@ -126,6 +126,21 @@ func catalogue(pc *world.ProducerChain, T int) []item {
 			}
 		}
 	}
+	// exact copies of the genuine items (same hash / same commitment: every public field copied) whose signature is
+	// replaced — anybody can make these from public data; they must never count as the proposer's material
+	cp := pc.Header(T)
+	cp.Signature = bytes.Repeat([]byte{0xCD}, 64)
+	out = append(out, item{Kind: "exact-copy-of-genuine-header-with-garbage-signature", Channel: "da", hdr: cp, light: true})
+	cp2 := pc.Header(T)
+	cp2.Signature = nil
+	out = append(out, item{Kind: "exact-copy-of-genuine-header-without-signature", Channel: "da", hdr: cp2, light: true})
+	if pc.DatBlobs[T] != nil {
+		var gsd types.SignedData
+		if err := gsd.UnmarshalBinary(pc.DatBlobs[T]); err == nil {
+			gsd.Signature = bytes.Repeat([]byte{0xCD}, 64)
+			out = append(out, item{Kind: "exact-copy-of-genuine-signed-data-with-garbage-signature", Channel: "da", sdata: &gsd})
+		}
+	}
 	// forged signed data alone on the DA layer, junk data on P2P
 	out = append(out, item{Kind: "forged-signed-data(attacker key under proposer address)", Channel: "da", sdata: fsd})
 	out = append(out, item{Kind: "junk-p2p-data-with-plausible-metadata", Channel: "p2p-data", data: fd})
@@ -164,7 +179,7 @@ type result struct {
 // run delivers the genuine chain over the DA layer (one DA height per block) and injects `it` (nil = baseline)
 // at position pos relative to target block T: "future" (before block T-1 arrived), "next" (just before block T),
 // "past" (after block T was applied).
-func run(t *testing.T, pc *world.ProducerChain, it *item, T int, pos string) (res result) {
+func run(t *testing.T, pc *world.ProducerChain, it *item, T int, pos string, genuineVia string) (res result) {
 	synctest.Test(t, func(t *testing.T) {
 		env := world.NewEnv()
 		hs := &world.P2PStore[*types.SignedHeader]{}
@@ -177,6 +192,21 @@ func run(t *testing.T, pc *world.ProducerChain, it *item, T int, pos string) (re
 		defer f.Stop()
 		daH := uint64(0)
 		genuine := func(i int) {
+			if genuineVia == "p2p" {
+				// the proposer's blobs are NOT on the DA layer (yet); the node syncs over P2P
+				if hs.Height() < pc.Initial+uint64(i) {
+					hs.Append1(pc.Header(i))
+				}
+				if ds.Height() < pc.Initial+uint64(i) {
+					ds.Append1(pc.DataAt(i))
+				}
+				daH++
+				env.DA.SetTip(daH)
+				f.TickP2P()
+				f.TickDA()
+				f.TickIncluder()
+				return
+			}
 			daH++
 			env.DA.Place(daH, pc.HdrBlobs[i])
 			if pc.DatBlobs[i] != nil {
@@ -263,7 +293,7 @@ func TestCheck(t *testing.T) {
 	patterns := vf.Pick(r, []string{"ab", "ea"}, []string{"ab", "ea", "ae", "ee", "abe", "eab", "bea"})
 	r.Assume = []string{
 		"the adversary has the proposer's public key and address, the chain so far, and its own key; it cannot sign with the proposer's key",
-		"genuine traffic arrives over the DA layer, one DA height per block; the adversarial item arrives over the DA layer, the P2P header store or the P2P data store, before block T-1, just before block T, or after block T",
+		"genuine traffic arrives over the DA layer (one DA height per block) or, in a second variant, over P2P only with nothing of the proposer on the DA layer; the adversarial item arrives over the DA layer, the P2P header store or the P2P data store, before block T-1, just before block T, or after block T",
 		"a halt caused by junk arriving over P2P only is recorded as an observation, not as a violation (the property's no-halt clause names third-party material on the DA layer)",
 		"light-node admission is decided by the two calls go-header makes on a received header: hdr.Validate() and trusted.Verify(hdr)",
 	}
@@ -276,12 +306,17 @@ func TestCheck(t *testing.T) {
 			r.EngineError(err.Error())
 			continue
 		}
-		base := run(t, pc, nil, 0, "")
+		base := run(t, pc, nil, 0, "", "da")
+		baseP2P := run(t, pc, nil, 0, "", "p2p")
+		if len(baseP2P.fatal) > 0 || !strings.Contains(baseP2P.digest, fmt.Sprintf("height=%d;", pc.Len())) || !strings.Contains(baseP2P.digest, "dainc=0;") {
+			r.EngineError("baseline run over P2P (nothing of the proposer on the DA layer) is not 'synced, nothing DA-included': " + baseP2P.digest)
+			continue
+		}
 		if len(base.fatal) > 0 || !strings.Contains(base.digest, fmt.Sprintf("height=%d;", pc.Len())) || !strings.Contains(base.digest, fmt.Sprintf("dainc=%d;", pc.Len())) {
 			r.EngineError("baseline run without adversary does not reach the producer chain: " + base.digest + " " + strings.Join(base.fatal, ";"))
 			continue
 		}
-		base2 := run(t, pc, nil, 0, "")
+		base2 := run(t, pc, nil, 0, "", "da")
 		if base2.digest != base.digest {
 			r.EngineError("baseline is not deterministic")
 		}
@@ -300,31 +335,40 @@ func TestCheck(t *testing.T) {
 					if (pos == "future" && T < 2) || (pos == "next" && T < 1) {
 						continue
 					}
-					evals++
-					res := run(t, pc, &it, T, pos)
-					tags := []string{it.Channel + ":" + it.Kind}
-					hist := map[string]any{"pattern": pt, "T": T, "kind": it.Kind, "channel": it.Channel, "pos": pos}
-					desc := fmt.Sprintf("chain genesis+%q, %s for height %d over %s, position %s", pt, it.Kind, pc.Initial+uint64(T), it.Channel, pos)
-					r.Outcome(fmt.Sprintf("%s/%s/%v", it.Kind, it.Channel, res.digest == base.digest))
-					if res.stored != "" {
-						r.Report(vf.Violation{Clause: "stored-chain-signed-by-proposer", Tags: tags, Msg: desc + ": " + res.stored, Cost: 1, History: hist})
-						continue
-					}
-					if res.digest == base.digest {
-						if evals%37 == 0 {
-							r.Sample(map[string]any{"case": desc, "result": "end state identical to the run without the adversary"})
+					for _, via := range []string{"da", "p2p"} {
+						if via == "p2p" && it.Channel != "da" {
+							continue // the P2P stores hold the genuine chain in this variant; only DA-borne items are injected
 						}
-						continue
-					}
-					if len(res.fatal) > 0 {
-						if it.Channel != "da" {
-							p2pHalts++
+						base := base
+						if via == "p2p" {
+							base = baseP2P
+						}
+						evals++
+						res := run(t, pc, &it, T, pos, via)
+						tags := []string{it.Channel + ":" + it.Kind}
+						hist := map[string]any{"pattern": pt, "T": T, "kind": it.Kind, "channel": it.Channel, "pos": pos, "genuine_via": via}
+						desc := fmt.Sprintf("chain genesis+%q (genuine traffic over %s), %s for height %d over %s, position %s", pt, via, it.Kind, pc.Initial+uint64(T), it.Channel, pos)
+						r.Outcome(fmt.Sprintf("%s/%s/%s/%v", it.Kind, it.Channel, via, res.digest == base.digest))
+						if res.stored != "" {
+							r.Report(vf.Violation{Clause: "stored-chain-signed-by-proposer", Tags: tags, Msg: desc + ": " + res.stored, Cost: 1, History: hist})
 							continue
 						}
-						r.Report(vf.Violation{Clause: "third-party-da-material-halts-node", Tags: tags, Msg: desc + ": the node stopped with a fatal error: " + res.fatal[0], Cost: 1, History: hist})
-						continue
+						if res.digest == base.digest {
+							if evals%37 == 0 {
+								r.Sample(map[string]any{"case": desc, "result": "end state identical to the run without the adversary"})
+							}
+							continue
+						}
+						if len(res.fatal) > 0 {
+							if it.Channel != "da" {
+								p2pHalts++
+								continue
+							}
+							r.Report(vf.Violation{Clause: "third-party-da-material-halts-node", Tags: tags, Msg: desc + ": the node stopped with a fatal error: " + res.fatal[0], Cost: 1, History: hist})
+							continue
+						}
+						r.Report(vf.Violation{Clause: "adversarial-material-changes-outcome", Tags: tags, Msg: desc + ":\n with adversary: " + res.digest + "\n without:        " + base.digest, Cost: 1, History: hist})
 					}
-					r.Report(vf.Violation{Clause: "adversarial-material-changes-outcome", Tags: tags, Msg: desc + ":\n with adversary: " + res.digest + "\n without:        " + base.digest, Cost: 1, History: hist})
 				}
 			}
 		}
